@@ -266,3 +266,52 @@ func harnessC07SubscribeWhilePublishing() {
 	vAssert(maxInside <= 1, "sequential-invocations-never-overlap")
 	vCover("done")
 }
+
+func c07O0(e evA) {}
+func c07O1(e evA) {}
+func c07O2(e evA) {}
+
+var c07Others = []Handler[evA]{c07O0, c07O1, c07O2}
+
+//verif:entry property=C07 tier=both bounds="a Sequential handler (sync or Async) at any position among two ordinary handlers of its type; one or two registry changes that do not concern it (an ordinary handler unsubscribed, subscribed again, another type cleared), then two events: the Sequential handler still gets every event exactly once" cover="done"
+func harnessC07RegistryChanges() {
+	bus := New()
+	pos := vPick(3)
+	async := vBool()
+	var mu sync.Mutex
+	seen := map[int]int{}
+	so := []SubscribeOption{Sequential()}
+	if async {
+		so = append(so, Async())
+	}
+	var others []int
+	for i := 0; i < 3; i++ {
+		if i == pos {
+			vAssert(Subscribe(bus, func(e evA) { mu.Lock(); seen[e.N]++; mu.Unlock() }, so...) == nil, "subscribe-ok")
+		} else {
+			vAssert(Subscribe(bus, c07Others[i]) == nil, "subscribe-ok")
+			others = append(others, i)
+		}
+	}
+	Subscribe(bus, func(e evB) {})
+	changes := vInt(1, 2)
+	for c := 0; c < changes; c++ {
+		switch vPick(3) {
+		case 0:
+			_ = Unsubscribe[evA](bus, c07Others[others[vPick(2)]])
+		case 1:
+			_ = Subscribe(bus, c07Others[others[vPick(2)]])
+		case 2:
+			Clear[evB](bus)
+		}
+	}
+	for n := 1; n <= 2; n++ {
+		Publish(bus, evA{N: n})
+	}
+	bus.Wait()
+	vJoinAll()
+	mu.Lock()
+	vAssert(seen[1] == 1 && seen[2] == 1 && len(seen) == 2, "each-event-exactly-once")
+	mu.Unlock()
+	vCover("done")
+}
